@@ -81,40 +81,47 @@ func (p *Prog) funcOfSSA(fn *ssa.Function) *Func {
 	return nil
 }
 
-// Reachable returns the repository source functions reachable in the VTA call graph
-// (through calls, go and defer edges) from the given roots.
+// Reachable returns the repository source functions reachable from the given roots
+// through repository code: VTA call edges (static, interface and function-value calls,
+// go and defer included) whose callee is a repository function, the function literals a
+// reachable function creates, and every repository function a reachable function
+// references as a value (method values handed to library code such as WaitGroup.Go or
+// time.AfterFunc).  Library functions are never traversed: their context-insensitive
+// summaries (sync.Once.Do, WaitGroup.Go, fmt) would connect everything to everything.
 func (p *Prog) Reachable(roots ...*Func) map[*Func]bool {
 	st := p.SSA()
 	out := map[*Func]bool{}
-	seen := map[*callgraph.Node]bool{}
-	var stack []*callgraph.Node
-	for _, r := range roots {
-		if fn := p.SSAFunc(r); fn != nil {
-			if n := st.cg.Nodes[fn]; n != nil {
-				stack = append(stack, n)
-			}
+	var stack []*Func
+	push := func(f *Func) {
+		if f != nil && !out[f] {
+			out[f] = true
+			stack = append(stack, f)
 		}
-		out[r] = true
+	}
+	for _, r := range roots {
+		push(r)
 	}
 	for len(stack) > 0 {
-		n := stack[len(stack)-1]
+		f := stack[len(stack)-1]
 		stack = stack[:len(stack)-1]
-		if seen[n] {
-			continue
+		for _, l := range f.Lits {
+			push(l)
 		}
-		seen[n] = true
-		if f := p.funcOfSSA(n.Func); f != nil {
-			out[f] = true
-		}
-		// closures created by this function are reachable when it runs
-		for _, anon := range n.Func.AnonFuncs {
-			if an := st.cg.Nodes[anon]; an != nil && !seen[an] {
-				stack = append(stack, an)
+		// referenced repository functions
+		info := f.Info()
+		f.Walk(func(n ast.Node) bool {
+			if id, ok := n.(*ast.Ident); ok {
+				if fo, ok := info.Uses[id].(*types.Func); ok {
+					push(p.byObj[fo.Origin()])
+				}
 			}
-		}
-		for _, e := range n.Out {
-			if !seen[e.Callee] {
-				stack = append(stack, e.Callee)
+			return true
+		})
+		if fn := p.SSAFunc(f); fn != nil {
+			if n := st.cg.Nodes[fn]; n != nil {
+				for _, e := range n.Out {
+					push(p.funcOfSSA(e.Callee.Func))
+				}
 			}
 		}
 	}
@@ -144,4 +151,43 @@ func (p *Prog) Callers(f *Func) []*Func {
 	}
 	sort.Slice(out, func(i, j int) bool { return out[i].Name < out[j].Name })
 	return out
+}
+
+// CallPath returns one call-graph path (function names) from root to target, for diagnosis.
+func (p *Prog) CallPath(root, target *Func) []string {
+	st := p.SSA()
+	rf, tf := p.SSAFunc(root), p.SSAFunc(target)
+	if rf == nil || tf == nil {
+		return nil
+	}
+	start := st.cg.Nodes[rf]
+	prev := map[*callgraph.Node]*callgraph.Node{start: nil}
+	queue := []*callgraph.Node{start}
+	for len(queue) > 0 {
+		n := queue[0]
+		queue = queue[1:]
+		if n.Func == tf {
+			var out []string
+			for x := n; x != nil; x = prev[x] {
+				out = append([]string{Short(x.Func.String())}, out...)
+			}
+			return out
+		}
+		var nexts []*callgraph.Node
+		for _, anon := range n.Func.AnonFuncs {
+			if an := st.cg.Nodes[anon]; an != nil {
+				nexts = append(nexts, an)
+			}
+		}
+		for _, e := range n.Out {
+			nexts = append(nexts, e.Callee)
+		}
+		for _, m := range nexts {
+			if _, seen := prev[m]; !seen {
+				prev[m] = n
+				queue = append(queue, m)
+			}
+		}
+	}
+	return nil
 }
